@@ -39,7 +39,7 @@ def gen_cases(seed, tier):
         nm = names[(i // 5) % 5]
         c = dict(solver=sv, f=int(rng.choice([1, 2, 3])), m=int(rng.choice([2, 3, 5])), asyn=bool(rng.integers(0, 2)),
                  k=int(rng.integers(3, 14)), devices=1,     # run lengths on both sides of the 9 -> 10 digit boundary
-                 ov=dict(newdir=bool(rng.random() < 0.7), f=int(rng.choice([0, 1, 4])) or None,
+                 ov=dict(newdir=bool(rng.random() < 0.7), f=[None, 1, 4, 0][int(rng.integers(0, 4))],      # None = no override; 0 = "continue without checkpointing"
                          m=int(rng.choice([0, 1, 4])) or None, asyn=[None, True, False][int(rng.integers(0, 3))]),
                  period=int(rng.integers(2, 5)), random_seed=int(rng.integers(0, 1000)), vkw=_variant(sv, rng),
                  errors=bool(i % 3 == 0), decoy=bool(i % 4 == 1))
@@ -121,7 +121,7 @@ def run_case(case):
             newD = os.path.join(base, f"new{j}") if (ov["newdir"] or j > 0) else None
             rkw = {}
             if j == 0:
-                if ov["f"]:
+                if ov["f"] is not None:
                     rkw["checkpoint_frequency"] = ov["f"]
                 if ov["m"]:
                     rkw["max_checkpoints"] = ov["m"]
@@ -145,10 +145,17 @@ def run_case(case):
                     return dict(status="violation", kind="config",
                                 detail=f"{where}: restored configuration differs in {diff}: restored "
                                        f"{ {k_: cmp_a.get(k_) for k_ in diff} }, original {{ {', '.join(f'{k_}: {cmp_b.get(k_)}' for k_ in diff)} }}")
-                eff = (int(r.checkpoint_frequency), int(r.max_checkpoints), bool(r.enable_async_checkpointing))
-                want = (rkw.get("checkpoint_frequency", case["f"]), rkw.get("max_checkpoints", case["m"]),
-                        rkw.get("enable_async_checkpointing", case["asyn"]))
-                if eff != want or (newD and os.path.abspath(str(r.checkpoint_dir)) != newD):
+                if rkw.get("checkpoint_frequency") == 0:
+                    # checkpointing disabled: the solver has no directory, retention or mode to report
+                    eff = want = (int(r.checkpoint_frequency),)
+                    if eff != (0,):
+                        return dict(status="violation", kind="override",
+                                    detail=f"{where}: restore(checkpoint_frequency=0) left frequency {eff[0]} in effect")
+                else:
+                    eff = (int(r.checkpoint_frequency), int(r.max_checkpoints), bool(r.enable_async_checkpointing))
+                    want = (rkw.get("checkpoint_frequency", case["f"]), rkw.get("max_checkpoints", case["m"]),
+                            rkw.get("enable_async_checkpointing", case["asyn"]))
+                if eff != want or (newD and rkw.get("checkpoint_frequency") != 0 and os.path.abspath(str(r.checkpoint_dir)) != newD):
                     return dict(status="violation", kind="override", detail=f"{where}: overrides {rkw}/new dir not in effect: {eff}, {r.checkpoint_dir}")
             else:
                 kw2 = dict(kw)
@@ -172,6 +179,18 @@ def run_case(case):
                 rlog = ckpt.wrap_save(r, sv, [])
                 target.solve(r, 2)
                 ckpt.wait(r)
+                if has_cfg and rkw.get("checkpoint_frequency") == 0:
+                    # "0 to disable": the restored solver continues without checkpointing - the original directory keeps
+                    # exactly the steps it had, whether or not a new directory was named
+                    if (ckpt.listing(D) or []) != steps or (newD and (ckpt.listing(newD) or [])):
+                        return dict(status="violation", kind="override",
+                                    detail=f"{where}: restore(checkpoint_frequency=0) followed by solve(2) wrote checkpoints: original directory "
+                                           f"{steps} -> {ckpt.listing(D)}, new directory {ckpt.listing(newD) if newD else None}")
+                    n_cmp += 1
+                    if newD and ckpt.dir_digest(D) != before:
+                        return dict(status="violation", kind="original-dir-touched",
+                                    detail=f"{where}: restoring with checkpoint_frequency=0 into a new directory changed files of the original directory")
+                    continue
                 if newD:
                     if not (ckpt.listing(newD) or []) and r.checkpoint_frequency <= 2:
                         return dict(status="violation", kind="override", detail=f"{where}: nothing saved to the new directory")
